@@ -18,6 +18,7 @@ import (
 	"os"
 	"strconv"
 	"strings"
+	"time"
 )
 
 var appFlags CommandLineFlags
@@ -283,7 +284,9 @@ func httpStart(server *mux.Router, httpURL string) {
 		panic(err)
 	}
 	logger.Info("Server is listening on", httpURL)
-	if err := http.Serve(listener, server); err != nil {
+	// a client that stops sending must not hold a connection and its handler goroutine forever
+	srv := &http.Server{Handler: server, ReadHeaderTimeout: 30 * time.Second, ReadTimeout: 2 * time.Minute}
+	if err := srv.Serve(listener); err != nil {
 		logger.Error("Error serving:", err)
 		panic(err)
 	}
